@@ -3,7 +3,7 @@
 The real ASan squid binary runs under the lock-step shim with `auth_param basic` (helper = vhelper, played
 by the driver, concurrency 2, credentialsttl 60 s) and `http_access deny !authed`.  Two client connections
 run request scripts of <= 2 requests each (no pipelining); every request carries one credential token:
-A = user a<n> with password "pa", W = the SAME user with password "wrong", B = user b<n> with password
+A = user a<n> with password "pa", W = the SAME user with the wrong password "PA" (differs from the right one only in letter case), B = user b<n> with password
 "pb", or a garbled / missing header.  The driver owns every scheduling decision: which connection sends
 its next request, which pending helper lookup is answered next (and with what), when the clock jumps past
 the credentials TTL.  All maximal schedules of a job are enumerated by stateless depth-first search over
@@ -39,7 +39,9 @@ def creds_of(tok, n):
     if tok == 'A':
         return ('a%d' % n, 'pa')
     if tok == 'W':
-        return ('a%d' % n, 'wrong')
+        # a wrong password of the same user; it differs from the right one only in letter case, so that a
+        # case-insensitive (or prefix / length-only) comparison of cached passwords cannot hide behind it
+        return ('a%d' % n, 'PA')
     if tok == 'B':
         return ('b%d' % n, 'pb')
     return None
